@@ -12,19 +12,19 @@ Import ListNotations.
 Open Scope N_scope.
 
 (* an accepted history ends in a reachable state of the abstract protocol ... *)
-Theorem accepted_history_is_a_run : forall V tr s, run V tr = Ok s -> Reachable V s.
+Theorem accepted_history_is_a_run : forall V tr s, run V tr = ROk s -> Reachable V s.
 Proof. exact ExecThms.accepted_history_is_a_run. Qed.
 Print Assumptions accepted_history_is_a_run.
 
 (* ... whose projection is what was observed last *)
 Theorem accepted_history_observed : forall V tr e os s,
-  run V (tr ++ [(e, os)]) = Ok s -> Reachable V s /\ check_obs s os = true.
+  run V (tr ++ [(e, os)]) = ROk s -> Reachable V s /\ check_obs s os = true.
 Proof. exact ExecThms.accepted_history_observed. Qed.
 Print Assumptions accepted_history_observed.
 
 (* acceptance of a history is acceptance of each of its prefixes: the statements below hold at
    every instant of an accepted history *)
-Theorem accepted_prefix : forall V tr1 tr2 s, run V (tr1 ++ tr2) = Ok s -> exists s1, run V tr1 = Ok s1.
+Theorem accepted_prefix : forall V tr1 tr2 s, run V (tr1 ++ tr2) = ROk s -> exists s1, run V tr1 = ROk s1.
 Proof. exact ExecThms.accepted_prefix. Qed.
 Print Assumptions accepted_prefix.
 
@@ -34,14 +34,14 @@ Proof. exact Exec.explain_sound. Qed.
 Print Assumptions explain_sound.
 
 (* C01 on observations *)
-Theorem observed_one_leader_per_term : forall V tr e os s, run V (tr ++ [(e, os)]) = Ok s ->
+Theorem observed_one_leader_per_term : forall V tr e os s, run V (tr ++ [(e, os)]) = ROk s ->
   forall n1 o1 n2 o2, In (n1, o1) os -> In (n2, o2) os ->
     o_role o1 = Leader -> o_role o2 = Leader -> o_cur o1 = o_cur o2 -> n1 = n2.
 Proof. exact ExecThms.observed_one_leader_per_term. Qed.
 Print Assumptions observed_one_leader_per_term.
 
 (* C02 on observations *)
-Theorem observed_leader_holds_committed : forall V tr e os s, run V (tr ++ [(e, os)]) = Ok s ->
+Theorem observed_leader_holds_committed : forall V tr e os s, run V (tr ++ [(e, os)]) = ROk s ->
   forall n o l ol i x, In (n, o) os -> In (l, ol) os -> o_role ol = Leader -> o_cur o <= o_cur ol ->
     (1 <= i <= o_commit o)%nat -> nth_error (o_log o) (i - 1) = Some x ->
     nth_error (o_log ol) (i - 1) = Some x.
@@ -49,7 +49,7 @@ Proof. exact ExecThms.observed_leader_holds_committed. Qed.
 Print Assumptions observed_leader_holds_committed.
 
 (* C03 on observations *)
-Theorem observed_state_machine_safety : forall V tr e os s, run V (tr ++ [(e, os)]) = Ok s ->
+Theorem observed_state_machine_safety : forall V tr e os s, run V (tr ++ [(e, os)]) = ROk s ->
   forall n1 o1 n2 o2, In (n1, o1) os -> In (n2, o2) os ->
     (exists tail, firstn (o_commit o2) (o_log o2) = firstn (o_commit o1) (o_log o1) ++ tail) \/
     (exists tail, firstn (o_commit o1) (o_log o1) = firstn (o_commit o2) (o_log o2) ++ tail).
@@ -57,7 +57,7 @@ Proof. exact ExecThms.observed_state_machine_safety. Qed.
 Print Assumptions observed_state_machine_safety.
 
 (* C04 on observations *)
-Theorem observed_log_matching : forall V tr e os s, run V (tr ++ [(e, os)]) = Ok s ->
+Theorem observed_log_matching : forall V tr e os s, run V (tr ++ [(e, os)]) = ROk s ->
   forall n1 o1 n2 o2 j e1 e2, In (n1, o1) os -> In (n2, o2) os ->
     nth_error (o_log o1) j = Some e1 -> nth_error (o_log o2) j = Some e2 -> eterm e1 = eterm e2 ->
     e1 = e2 /\ firstn (S j) (o_log o1) = firstn (S j) (o_log o2).
@@ -65,7 +65,7 @@ Proof. exact ExecThms.observed_log_matching. Qed.
 Print Assumptions observed_log_matching.
 
 (* C06 on observations *)
-Theorem observed_commit_durable : forall V tr e os s, run V (tr ++ [(e, os)]) = Ok s ->
+Theorem observed_commit_durable : forall V tr e os s, run V (tr ++ [(e, os)]) = ROk s ->
   forall n o i x, In (n, o) os -> (1 <= i <= o_commit o)%nat -> nth_error (o_log o) (i - 1) = Some x ->
     exists Q, majority V Q /\ forall v, In v Q ->
       (i <= flushed (st s v))%nat /\ nth_error (log (st s v)) (i - 1) = Some x.
@@ -87,10 +87,10 @@ Definition sample_history : list (aevent * list (N * obs)) := [
  (AAck 1 3 0%nat, [(1,(mkO 2 1 Leader [(2,1)] 0%nat 0%nat))]);
  (ACrash 1, [(1,(mkO 2 1 Follower [] 0%nat 0%nat))])].
 
-Example sample_history_accepted : exists s, run [1; 2; 3] sample_history = Ok s.
+Example sample_history_accepted : exists s, run [1; 2; 3] sample_history = ROk s.
 Proof. eexists. vm_compute. reflexivity. Qed.
 
 (* and the checker does reject: the same history in which node 3 grants its vote of term 2 twice *)
 Example double_vote_rejected :
-  run [1; 2; 3] (firstn 5 sample_history ++ [(AVoteReq 3 2 2 true, [(3,(mkO 2 2 Follower [] 0%nat 0%nat))])]) = Fail (5 * 1000 + 22).
+  run [1; 2; 3] (firstn 5 sample_history ++ [(AVoteReq 3 2 2 true, [(3,(mkO 2 2 Follower [] 0%nat 0%nat))])]) = RFail 5 22.
 Proof. vm_compute. reflexivity. Qed.
